@@ -1610,6 +1610,11 @@ def cases(rng, ctx):
         for name in names[what]:
             for val in [rng.randrange(2, 10 ** 6), 'v%d' % rng.randrange(100)]:
                 out.append({'kind': 'bind', 'what': what, 'name': name, 'value': val})
+    # ---- (d) cold start: the first evaluations of a process, in threads
+    cold_pool = ['SUM(1,2)', 'LEN("ab")', 'MAX(va,1)', 'IF(TRUE,1,2)', 'ROUND(2.567,1)', 'UPPER("a")', 'DATE(2020,1,2)', 'ABS(-va)',
+                 'CONCATENATE("a","b")', 'AND(TRUE,FALSE)', 'va+1', 'DEC2HEX(255)', 'PV(0.05,10,100)', 'MATCH(2,{1,2,3},0)', 'ISBLANK(va)']
+    for _ in range(4 if thorough else 2):
+        out.append({'kind': 'cold', 'formulas': rng.sample(cold_pool, rng.choice([3, 4, 6])), 'repeat': 3 if thorough else 2})
     # ---- (a) nesting
     n_hand = len(HAND) if thorough else 14
     hand = list(HAND) if thorough else HAND[:5] + rng.sample(HAND[5:], n_hand - 5)
@@ -1698,6 +1703,8 @@ def _run(c):
             res = run_sched(c['formulas'], c['schedule'])
         elif kind == 'stress':
             res = run_stress(c)
+        elif kind == 'cold':
+            res = run_cold(c)
         else:
             raise ValueError(kind)
     finally:
@@ -1708,6 +1715,52 @@ def _run(c):
 
 
 MODEL_RUNS_PER_CASE = 6
+
+COLD_SCRIPT = r'''
+import sys, json, threading
+sys.dont_write_bytecode = True
+sys.path.insert(0, sys.argv[1])
+formulas = json.loads(sys.argv[2])
+import hotxlfp
+parsers = [hotxlfp.Parser() for _ in formulas]
+for p in parsers:
+    p.set_variable('va', 53)
+out = [None] * len(formulas)
+gate = threading.Barrier(len(formulas))
+def work(i):
+    gate.wait()
+    r = parsers[i].parse(formulas[i])
+    out[i] = [repr(r['result']), r['error']]
+ts = [threading.Thread(target=work, args=(i,)) for i in range(len(formulas))]
+for t in ts: t.start()
+for t in ts: t.join()
+print('COLD ' + json.dumps(out))
+'''
+
+
+def run_cold(c):
+    """the FIRST evaluations of a process, on distinct parsers in threads released together: whatever the library sets up
+    lazily at first use is set up under concurrency here"""
+    import json as _json
+    import subprocess
+    import sys as _sys
+    recs = []
+    for _ in range(c.get('repeat', 3)):
+        p = subprocess.run([_sys.executable, '-c', COLD_SCRIPT, common.REPO, _json.dumps(c['formulas'])],
+                           stdout=subprocess.PIPE, stderr=subprocess.PIPE, timeout=120)
+        line = [l for l in p.stdout.decode('utf-8', 'replace').split('\n') if l.startswith('COLD ')]
+        if not line:
+            raise RuntimeError('cold-start runner failed: %s' % p.stderr.decode('utf-8', 'replace')[-400:])
+        recs.append(_json.loads(line[0][5:]))
+    common.load_repo()
+    import hotxlfp
+    want = []
+    for f in c['formulas']:
+        q = hotxlfp.Parser()
+        q.set_variable('va', 53)
+        r = q.parse(f)
+        want.append([repr(r['result']), r['error']])
+    return {'recs': recs, 'want': want}
 
 
 def _comparable(outer, plan, frames):
@@ -1854,6 +1907,13 @@ def oracle(c, impl_ans):
                 return ('threads evaluating %r on distinct parsers under the schedule %r: thread %d (%r) gives %r, alone it gives %r; '
                         'tokens it fetched: %r' % (c['formulas'], impl_ans['effective'], i, f, impl_ans['recs'][i], s['rec'],
                                                    impl_ans['ops'][i]))
+        return None
+    if kind == 'cold':
+        for run in impl_ans['recs']:
+            for i, f in enumerate(c['formulas']):
+                if run[i] != impl_ans['want'][i]:
+                    return ('the first evaluations of a fresh process, %r on distinct parsers in threads started together: %r gives %r, '
+                            'alone it gives %r' % (c['formulas'], f, run[i], impl_ans['want'][i]))
         return None
     if kind == 'stress':
         if impl_ans['bad']:
